@@ -56,6 +56,32 @@ theorem idxMap_getD {K : Type} (x : List K) (f : Nat → K → K) (i : Nat) (d :
 /-- Example data for the simplex threshold: the sorted vector (1, 1/2, -1). -/
 def uEx : ℕ → ℚ := fun k => if k = 0 then 1 else if k = 1 then 1 / 2 else -1
 
+/-- entry of `proj_l1` in the thresholded branch -/
+theorem l1entry_cases (x tau : K) (ht : 0 ≤ tau) :
+    (|x| ≤ tau ∧ maxK (absK x - tau) 0 = 0 ∧ maxK (absK x - tau) 0 * signK x = 0) ∨
+    (tau < |x| ∧ maxK (absK x - tau) 0 = |x| - tau ∧
+      ((0 < x ∧ maxK (absK x - tau) 0 * signK x = x - tau) ∨
+       (x < 0 ∧ maxK (absK x - tau) 0 * signK x = x + tau))) := by
+  simp only [absK_eq, maxK_eq]
+  rcases le_or_gt (|x|) tau with h | h
+  · left
+    have : max (|x| - tau) 0 = 0 := max_eq_right (by linarith)
+    exact ⟨h, this, by rw [this, zero_mul]⟩
+  · right
+    have hm : max (|x| - tau) 0 = |x| - tau := max_eq_left (by linarith)
+    refine ⟨h, hm, ?_⟩
+    rcases lt_trichotomy x 0 with hx | hx | hx
+    · right
+      refine ⟨hx, ?_⟩
+      rw [hm, abs_of_neg hx]
+      unfold signK; rw [if_neg (by linarith), if_pos hx]; ring
+    · subst hx; simp at h; linarith
+    · left
+      refine ⟨hx, ?_⟩
+      rw [hm, abs_of_pos hx]
+      unfold signK; rw [if_pos hx]; ring
+
+
 /-! ## list sums and the fold of `proj_simplex` -/
 section SimplexFold
 open Finset
